@@ -872,7 +872,9 @@ func C09_Run(job string) {
 		v.Assert(d1[0] == d2[0] && d1[1] == d2[1], "C09:destination-depends-on-order")
 		return
 	}
+	smallT5 = true
 	sh := buildShape9(job)
+	smallT5 = false
 	o1 := runReal(sh)
 	o2 := runReal(sh)
 	if o1.m == nil && o2.m == nil {
